@@ -811,7 +811,8 @@ impl ShellValue {
             }
 
             existing_values.insert(new_key, value);
-            new_key += 1;
+            // N.B. After the largest possible index the next implicit one starts over.
+            new_key = new_key.wrapping_add(1);
         }
     }
 
